@@ -137,6 +137,9 @@ type c05Case struct {
 	Op       string    `json:"op"`
 	K        int       `json:"k"`
 	Arrivals []arrival `json:"arrivals"`
+	// ItemCtxOver: every value travels with a context that is already cancelled; only
+	// the subscription context tells an operator to stop, so nothing changes.
+	ItemCtxOver bool `json:"item_contexts_already_cancelled,omitempty"`
 }
 
 func init() {
@@ -180,6 +183,7 @@ func c05Run(t *testing.T, c c05Case) {
 		obss := make([]ro.Observable[int], c.K)
 		for i := range srcs {
 			srcs[i] = rt.NewManual(fmt.Sprintf("S%d", i), rt.CtorUnsafeCtx)
+			srcs[i].ItemCtxOver = c.ItemCtxOver
 			obss[i] = srcs[i].Observable()
 		}
 		m := row.Model(c.K)
@@ -469,9 +473,13 @@ func TestC05_ArrivalOrdersRandom(t *testing.T) {
 			as = append(as, arrival{Src: i, Ev: scripts[i][pos[i]]})
 			pos[i]++
 		}
-		c := c05Case{Op: row.Name, K: k, Arrivals: as}
+		c := c05Case{Op: row.Name, K: k, Arrivals: as, ItemCtxOver: rapid.IntRange(0, 3).Draw(rt_, "itemCtxOver") == 0}
 		c05Run(t, c)
-		rt.Case(caseKey("arr", row.Name, k, arrivalsString(as)), c05NonTrivial(as, k), "random:"+row.Family, func() any { return c })
+		class := "random:" + row.Family
+		if c.ItemCtxOver {
+			class += ", item contexts already cancelled"
+		}
+		rt.Case(caseKey("arr", row.Name, k, arrivalsString(as), c.ItemCtxOver), c05NonTrivial(as, k), class, func() any { return c })
 	})
 }
 
